@@ -143,7 +143,8 @@ def expected_chars(body):
         elif name == "ruby":
           b["ruby"] = "base"
         elif name == "rt":
-          b["ruby"] = "text"
+          if a["ruby"] is not None:     # <rt> outside <ruby> is ignored by a WebVTT parser: plain text
+            b["ruby"] = "text"
         walk(n["kids"], b, depth + 1)
         if state["ts_depth"] is not None and state["ts_depth"] > depth:
           state["closed"] = True      # the tag that enclosed the last timestamp has ended
@@ -400,7 +401,7 @@ def _make_tag(rng, items, depth, maxdepth, in_ruby, p_wrap, opts, force=None):
       seg = [x for x in items[bounds[s]:bounds[s + 1]]]
       # no white-space-only edges needed; keep as is
       if s % 2 == 0:
-        if opts.get("tag_in_ruby", False) and rng.random() < 0.3:
+        if opts.get("tag_in_ruby", False) and rng.random() < opts.get("p_tag_in_ruby", 0.3):
           seg = _wrap(rng, seg, depth + 1, maxdepth, True, 1.0, opts)
         kids.extend(seg)
       else:
